@@ -4,6 +4,7 @@ import json, os, shutil, time, glob
 SIM_REAL_DB = ["db", "acl", "audit", "types/api", "server handlers", "client/setec.Client", "tink AEAD (real key)", "tmpfs file system"]
 
 # budgets are seconds of simulation per stage (excluding the build)
+live_rule = "one evaluation = one live-store run: a Store built over the scripted service and a recording cache, then a tape-chosen mix of background ticks, explicit refreshes (with/without deadlines), server-side changes (new versions, activation backwards; also attached to individual requests as change-before/after-read), lookups, handle reads by reader tasks, clock advances and the property's own actions, every goroutine switch at a mutex acquisition or service request decided by the tape; distinct = distinct canonical event-log hash; non-trivial = at least one action"
 PROPS = {
     "C01": dict(level="exploration", stages=[dict(kind="sim", quick=25, thorough=600)],
                 rule="one evaluation = one seeded history (<=60 calls by 1-4 callers with drawn rule sets over <=4 names from an adversarial name/pattern catalogue, DB API or HTTP handlers); distinct = distinct canonical event-log hash; non-trivial = executed at least one call",
@@ -32,6 +33,24 @@ PROPS = {
     "C16": dict(level="exploration", stages=[dict(kind="sim", quick=20, thorough=600)],
                 rule="one evaluation = one lookup scenario: both settings of AllowLookup, 1-4 callers entering through LookupSecret / NewUpdater / Fields.Apply / Secret on colliding names, each with no deadline, a deadline or a scripted cancellation, against a service that answers, fails, is slow (up to minutes) or hangs forever; virtual time up to 45 min; distinct = distinct canonical event-log hash; non-trivial = at least one caller ran",
                 assumptions=["the scripted service honours request contexts"]),
+    "C11": dict(level="exploration", stages=[dict(kind="sim", quick=25, thorough=600)], rule=live_rule,
+                probes_required=["round-ok", "round-failed", "overlapping-refresh", "final-converge", "svc-change-before-read"],
+                assumptions=["freshness is judged by version number over the stamp window of the refresh epoch (from the first overlapping call's invoke to the return)", "a hung poll request ends after 2 min like a transport timeout"]),
+    "C12": dict(level="exploration", stages=[
+                    dict(kind="sim", name="baton", engine="storeworld-live", quick=20, thorough=600),
+                    dict(kind="sim", name="race", engine="storeworld-race", race=True, instrumented=False, quick=12, thorough=240,
+                         env={"VERIF_GOMAXPROCS": "4", "GORACE": "halt_on_error=1 exitcode=66", "VERIF_PRINT_START": "1"})],
+                rule=live_rule, probes_required=["read-judged", "reader-contended"],
+                assumptions=["install order is taken from the sequence of cache documents (written under the store's lock right after each install)"]),
+    "C13": dict(level="exploration", stages=[dict(kind="sim", quick=25, thorough=600)], rule=live_rule + "; restarts from the cache; a restart probe (second store from the last document with a dead service, and a FileClient on the same bytes) after every shutdown; separate corruption scenario: NewStore on mutated documents and arbitrary bytes",
+                probes_required=["restart-probe", "cache-write-error"],
+                assumptions=["FileCache atomic replacement under kills is decided by the crashfs engine"]),
+    "C15": dict(level="exploration", stages=[dict(kind="sim", quick=25, thorough=600)], rule=live_rule + "; 1-3 updaters per secret (some created while a round is parked), builders that reject chosen versions, values that count Close",
+                probes_required=["updater-rebuilt", "updater-build-failed", "updater-concurrent-get"],
+                assumptions=["Gets that overlap on one updater are judged only by the weak invariants (value identity, closers)"]),
+    "C19": dict(level="exploration", stages=[dict(kind="sim", quick=25, thorough=600)], rule=live_rule + "; expiry ages {0,1s,1min,1h}, caches with arbitrary last-access stamps (0, past, future), restarts from the cache, forward jumps of the store's clock",
+                probes_required=["expired-drop", "restart", "clock-jump"],
+                assumptions=["staleness is compared in whole seconds with one second of slack at the boundary"]),
     "C14": dict(level="exploration", stages=[
                     dict(kind="sim", name="baton", engine="dbworld-conc", quick=20, thorough=600),
                     dict(kind="sim", name="race", engine="dbworld-conc-free", race=True, instrumented=False, quick=12, thorough=240,
